@@ -71,6 +71,9 @@ def strategy():
     return st.fixed_dictionaries({
         'scripts': st.lists(st.lists(step, min_size=1, max_size=5), min_size=1, max_size=4),
         'ops': worldops.chunked(op, 40),
+        # population scale: 0, or the number of coroutines the generated scripts are multiplied up to (external
+        # start / kill then act on every copy of the chosen coroutine: dozens of kills pending at one frame)
+        'amp': worldops.size_amp(none=40, sizes=(90, 129, 150, 200)),
         # tie mode: every positive wait is 1, so that several coroutines share one wake-up time
         'sync': st.booleans()})
 
@@ -89,7 +92,13 @@ class Run:
 
     def __init__(self, case):
         self.case = case
-        self.n = len(case['scripts'])
+        self.scripts = list(case['scripts'])
+        self.nbase = len(self.scripts)
+        self.copies = 1
+        if case.get('amp'):
+            self.copies = case['amp']
+            self.scripts = self.scripts * self.copies
+        self.n = len(self.scripts)
         self.proc = desper.CoroutineProcessor()
         self.flags = collections.Counter()
         self.step_ix = -1
@@ -122,7 +131,7 @@ class Run:
 
     # ---- generator bodies ---------------------------------------------------------------------------
     def body(self, i):
-        script = self.case['scripts'][i]
+        script = self.scripts[i]
         if self.case.get('sync'):
             script = [dict(st_, out=(['y', 1] if st_['out'][0] == 'y' and st_['out'][1] is not None
                                      and st_['out'][1] > 0 else st_['out'])) for st_ in script]
@@ -142,8 +151,11 @@ class Run:
                 val = [('ret', i, s), 0, []][step['out'][1] % 3]
                 self.on_return(i, val)
                 return val
-            self.on_yield(i, step['out'][1])
-            yield step['out'][1]
+            y = step['out'][1]
+            if self.copies > 1 and y is not None and y > 0:
+                y = y * (1 + (i // self.nbase) % 7)     # the copies of one coroutine do not all wait equally long
+            self.on_yield(i, y)
+            yield y
         self.on_step(i, len(script))
         self.on_return(i, None)
         return None
@@ -469,10 +481,27 @@ class Run:
                 j = c[op[1] % len(c)] if c and op[1] < 12 else self.pick('kill', op[1])
                 self.do('kill', j)
                 self.do('start', j)
+            elif self.copies > 1:
+                j0 = self.pick(op[0], op[1]) % self.nbase
+                paused_before = sum(1 for x in self.state if x == P)
+                for c in range(self.copies):
+                    if op[0] != 'start' and c % 5 == 4:
+                        continue                    # every fifth copy is spared by kills
+                    self.do(op[0], j0 + c * self.nbase)
+                self.flags['amplified_population'] += 1
+                if op[0] != 'start' and paused_before - sum(1 for x in self.state if x == P) >= 64:
+                    self.flags['mass_kill_of_paused_coroutines'] += 1
             else:
                 self.do(op[0], self.pick(op[0], op[1]))
             for i in range(self.n):
                 self.check_state(i, 'after step')
+        if self.copies > 1:
+            # large populations: some more frames, so that whoever is still waiting gets the time to wake up
+            for k in range(10):
+                self.step_ix = len(self.case['ops']) + k
+                self.op_process(DTS[k % len(DTS)] or 1)
+                for i in range(self.n):
+                    self.check_state(i, 'after closing frame')
         return self
 
 
